@@ -7,8 +7,8 @@ import PdtModel.Model.Write
 namespace Pdt.Write
 open Pdt Pdt.Reader Pdt.Represent
 
-/-- `str(datetime)` of a timestamp token -/
-def dtText (tok : Str) : Str := tok.map (fun c => if c = 'T' then ' ' else c)
+/-- `str(to_pydatetime(…))` of a timestamp token: microsecond resolution (`Represent.truncMicro`) -/
+def dtText (tok : Str) : Str := (truncMicro tok).map (fun c => if c = 'T' then ' ' else c)
 
 def naRepOKb (naRep : Str) : Bool :=
   Gen.missingFloatConvert.contains (normalize naRep) && isMissingMarker (strip naRep) && !(strip naRep).isEmpty
